@@ -208,7 +208,7 @@ theorem modify_congr_at {α : Type} (f g : α → α) : ∀ (l : List α) (i : N
     simp only [List.getElem?_cons_succ] at h
     simp [modify_congr_at f g l i k h hfg]
 
-theorem scopeModifyAt_congr (f g : Tree → Tree) : ∀ (q : Path) (x sub : Tree),
+theorem ddScopeModifyAt_congr (f g : Tree → Tree) : ∀ (q : Path) (x sub : Tree),
     x.at? q = some sub → f sub = g sub → scopeModifyAt f x q = scopeModifyAt g x q
   | [], x, sub, h, hfg => by
     simp only [Tree.at?, Option.some.injEq] at h
@@ -222,7 +222,7 @@ theorem scopeModifyAt_congr (f g : Tree → Tree) : ∀ (q : Path) (x sub : Tree
       simp only [hk] at h
       simp only [scopeModifyAt]
       congr 1
-      exact modify_congr_at _ _ l i k hk (scopeModifyAt_congr f g q k sub h hfg)
+      exact modify_congr_at _ _ l i k hk (ddScopeModifyAt_congr f g q k sub h hfg)
 
 /-- Fix-ups recorded below `q` only touch the subtree at `q`. -/
 theorem applyFixups_at (fps : List (Path × List Nat)) : ∀ (q : Path) (x : Tree),
@@ -249,6 +249,6 @@ theorem dedupPass_eq (env : Env) (t : Tree) (path : Path) (sub : Tree) (hs : t.a
   have := remFixups_prefix path (dpRem env [] sub)
   simp only [remFixups] at this
   rw [this, applyFixups_at]
-  exact scopeModifyAt_congr _ _ path t sub hs (rebuild_tree env sub [])
+  exact ddScopeModifyAt_congr _ _ path t sub hs (rebuild_tree env sub [])
 
 end XotModel
